@@ -35,7 +35,11 @@ def run_variant(pid, variant, repo):
     tmp = tempfile.mkdtemp(prefix='bsverif-selftest-')
     try:
         make_copy(repo, tmp)
-        for ed in variant.get('edits', [variant]):
+        if 'patch' in variant:
+            pr = subprocess.run(['git', 'apply', '-p1', os.path.join(VERIF, variant['patch'])], cwd=tmp, capture_output=True, text=True)
+            if pr.returncode != 0:
+                return {'name': variant['name'], 'status': 'anchor-error', 'detail': 'patch does not apply: %s' % pr.stderr.strip()[:120]}
+        for ed in ([] if 'patch' in variant else variant.get('edits', [variant])):
             path = os.path.join(tmp, ed['file'])
             text = open(path, encoding='utf-8').read()
             n = text.count(ed['old'])
@@ -75,7 +79,12 @@ def run(pid, verbose=True):
     t0 = time.time()
     with ThreadPoolExecutor(max_workers=16) as ex:
         results = list(ex.map(lambda v: run_variant(pid, v, front.REPO), vs))
-    bad = [r for r in results if r['status'] != 'ok']
+    strict = os.environ.get('VERIF_SELFTEST_STRICT') == '1'
+    skipped = [r for r in results if r['status'] == 'anchor-error']
+    bad = [r for r in results if r['status'] != 'ok' and (strict or r['status'] != 'anchor-error')]
+    for r in skipped:
+        if not strict:
+            print('  SELFTEST-SKIPPED %s: the text this variant edits is no longer present (%s)' % (r['name'], r.get('detail', '')))
     fired = sum(1 for r, v in zip(results, vs) if v['kind'] == 'fire' and r['status'] == 'ok')
     silent = sum(1 for r, v in zip(results, vs) if v['kind'] == 'silent' and r['status'] == 'ok')
     print('selftest %s: %d variants, fired %d, silent_ok %d, problems %d (%.1fs)' % (pid, len(vs), fired, silent, len(bad), time.time() - t0))
